@@ -192,13 +192,19 @@ def unknown_name_combinations():
     return out
 
 
-def make_family(fname, topo, f, usage=False):
+def make_family(fname, topo, f, usage=False, agg_alias=None):
     combos = f if isinstance(f, list) else None
 
     def path(ctx):
+        from engine import scenario
         app.setup()
         f_ = F(**combos[symex.choose(len(combos))]) if combos else f
-        return path_(ctx, f_)
+        scenario.AGG_ALIAS.clear()
+        scenario.AGG_ALIAS.update(agg_alias or {})
+        try:
+            return path_(ctx, f_)
+        finally:
+            scenario.AGG_ALIAS.clear()
 
     def path_(ctx, f):
         with cands.CW(ctx, topo, usage=usage, naggs=3) as cw:
@@ -308,7 +314,16 @@ def families(tier):
             ('full', TOPO, F(mem=[[1, 2]], req=[[T1, T2]],
                              res={'VCPU': None})),
         ]
-    return [make_family(x[0], x[1], x[2], *(x[3:])) for x in fams]
+    out = [make_family(x[0], x[1], x[2], *(x[3:])) for x in fams]
+    # aggregates whose stored uuid is spelled with upper-case digits (the
+    # API keeps the spelling it was given), named with that spelling
+    upper = {1: AGG(1).upper(), 2: AGG(2).upper()}
+    out += [make_family(n + '/upper-case-aggregate', A, f_, False, upper)
+            for n, f_ in (('member_of', F(mem=[[1]])),
+                          ('member_of-in', F(mem=[[1, 2]])),
+                          ('member_of-not', F(fmem=[1])),
+                          ('member_of-pos+neg', F(mem=[[1]], fmem=[2])))]
+    return out
 
 
 if __name__ == '__main__':
